@@ -13,8 +13,13 @@ import json, os, random, re, shutil, subprocess, sys, time, hashlib
 VERIF = os.path.dirname(os.path.dirname(os.path.abspath(__file__)))
 REPO = os.environ.get("JIVA_REPO", "/repo")
 COQ = os.path.join(VERIF, "coq")
-HARNESS = os.path.join(VERIF, "harness")
 WORKROOT = os.path.join(VERIF, ".work")
+HARNESS_SRC = os.path.join(VERIF, "harness")
+if REPO == "/repo":
+    HARNESS = HARNESS_SRC
+else:
+    # checks pointed at a scratch worktree (mutation rehearsal) build in a private copy of the harness
+    HARNESS = os.path.join(WORKROOT, "harness-" + hashlib.sha1(REPO.encode()).hexdigest()[:10])
 GOENV = dict(GOFLAGS="-mod=mod", GOPROXY="off", GOSUMDB="off", GOTOOLCHAIN="local")
 
 FORBIDDEN = re.compile(r"\b(Admitted|admit|Axiom|Axioms|Parameter|Parameters|Conjecture|Hypothesis|Variable)\b|Unset Guard|bypass_check|Admit Obligations|type-in-type|impredicative-set")
@@ -257,6 +262,10 @@ def flat(t):
 
 def harness_gomod():
     """go.mod of the harness module is derived from /repo/go.mod on every build."""
+    if HARNESS != HARNESS_SRC:
+        os.makedirs(HARNESS, exist_ok=True)
+        sh(["rsync", "-a", "--delete", "--exclude", "bin", "--exclude", "go.mod", "--exclude", "go.sum",
+            HARNESS_SRC + "/", HARNESS + "/"], check=True)
     src = open(os.path.join(REPO, "go.mod")).read().split("\n")
     lines = ["module jivaverif/harness"] + [l for l in src if not l.startswith("module ")]
     lines += ["require github.com/openebs/jiva v0.0.0", "replace github.com/openebs/jiva => " + REPO, ""]
